@@ -1356,7 +1356,7 @@ class _Run(object):
                         # last block with a stale / zero block count: the recorded blockcount finding at work
                         bcs = [e for e in _ST.log if e.get('m') == 'blockcount']
                         bc_failed = getattr(self, '_side_fail', False) or \
-                            (bool(bcs) and bcs[-1].get('beh') not in ANSWER)
+                            (bool(bcs) and bcs[-1].get('beh') != 'ok')     # (an 'empty' block count is 0: no answer)
                         self.disc('cache.gettransactions.truncated', '%s answered from the cache alone with %r although '
                                   'the confirmed history goes on: %r (limit %d); no provider was asked%s' %
                                   (what, got, conf, lim, ' (the last block count request had failed: the library works '
